@@ -363,3 +363,30 @@ pub fn short<S: BDDSymbol>(node: &Rc<BDD<S>>) -> String {
     go(node, &mut s, &mut b);
     s
 }
+
+
+/// Number of nodes of a diagram (by address) that are structurally equal to another node of the
+/// same diagram at a different address: 0 for a diagram that is reduced at node level.
+pub fn structural_twins<S: BDDSymbol>(root: &Rc<BDD<S>>) -> u64 {
+    fn go<'a, S: BDDSymbol>(node: &'a Rc<BDD<S>>, seen: &mut HashSet<*const BDD<S>>, by_structure: &mut std::collections::HashMap<&'a BDD<S>, *const BDD<S>>, twins: &mut u64) {
+        if !seen.insert(Rc::as_ptr(node)) {
+            return;
+        }
+        if let BDD::Choice(t, _, f) = node.as_ref() {
+            match by_structure.get(node.as_ref()) {
+                Some(p) if *p != Rc::as_ptr(node) => *twins += 1,
+                Some(_) => {}
+                None => {
+                    by_structure.insert(node.as_ref(), Rc::as_ptr(node));
+                }
+            }
+            go(t, seen, by_structure, twins);
+            go(f, seen, by_structure, twins);
+        }
+    }
+    let mut seen = HashSet::new();
+    let mut by_structure = std::collections::HashMap::new();
+    let mut twins = 0;
+    go(root, &mut seen, &mut by_structure, &mut twins);
+    twins
+}
